@@ -508,3 +508,26 @@ def rule_A6(ctx, R):
             res.ok(f["path"])
     res.need(65, "safe methods of borrowed guards")
     return res
+
+
+def rule_A7(ctx, R):
+    res = RuleResult("A7", "holds cannot change thread unless the raw lock allows it: every hold type carries "
+                           "PhantomData<R::GuardMarker> of its raw lock, and no manual Send impl exists for holds or guards")
+    for p, (fld, mode) in sorted(R.holdtypes.items()):
+        a = ctx.F.adts[p]
+        has = any(any(x["k"] == "alias" and x.get("name") == "GuardMarker" for x in ty_walk(f["ty"]))
+                  for f in a["variants"][0]["fields"])
+        if not has:
+            res.bad(Violation("A7", p, "guard-marker", "hold type %s no longer carries PhantomData<R::GuardMarker>: it becomes Send "
+                              "whenever its payload is, so a hold can be moved to and released by a thread that never acquired it "
+                              "(raw locks with GuardNoSend, e.g. parking_lot, forbid exactly that)" % p,
+                              a["span"]["file"], a["span"]["line"]))
+        else:
+            res.ok(p + " carries R::GuardMarker")
+    guardish = set(R.holdtypes) | R.key_carriers | R.hold_owners | {"poisonable::PoisonRef"}
+    for i in ctx.F.impls:
+        if i.get("trait") == SEND and i["self_ty"]["k"] == "adt" and i["self_ty"]["path"] in guardish and i.get("polarity") != "Negative":
+            res.bad(Violation("A7", i["self_ty"]["path"], "manual-send", "manual Send impl for the guard type %s" % i["self_ty"]["s"],
+                              i["span"]["file"], i["span"]["line"]))
+    res.need(3, "hold types")
+    return res
